@@ -1,7 +1,42 @@
 /-
   C05 — property theorems (see DESIGN.md §5 C05).
+  Property theorems only; lemmas live in GoDebian/Lemmas/ArchRoundTrip.lean.
 -/
 import GoDebian.Model.Dependency
+import GoDebian.Lemmas.ArchIs
+import GoDebian.Lemmas.ArchRoundTrip
 
 namespace GoDebian.Props.C05
+open GoDebian GoDebian.Dep
+
+/-- Parse, render, parse gives back the same (abi, os, cpu) triple for every
+    architecture name of any length: wildcards are neither widened nor narrowed. -/
+theorem C05_arch (n : Bytes) (a : Arch) (h : parseArch n = .ok a) :
+    parseArch a.render = .ok a :=
+  Lemmas.Arch.parseArch_roundtrip n a h
+
+/-- One-, two- and three-part names, a wildcard, and the corner cases: an empty cpu
+    part, a cpu part that itself contains '-', "any" in the os position. -/
+example :
+    parseArch (Bytes.ofString "amd64") = .ok ⟨sGnu, sLinux, Bytes.ofString "amd64"⟩ ∧
+    parseArch (Bytes.ofString "linux-any") = .ok ⟨sAny, sLinux, sAny⟩ ∧
+    parseArch (Bytes.ofString "musl-linux-arm64") =
+      .ok ⟨Bytes.ofString "musl", sLinux, Bytes.ofString "arm64"⟩ ∧
+    parseArch (Bytes.ofString "gnu-linux-") = .ok ⟨sGnu, sLinux, []⟩ ∧
+    parseArch (Bytes.ofString "a-b-c-d") =
+      .ok ⟨Bytes.ofString "a", Bytes.ofString "b", Bytes.ofString "c-d"⟩ ∧
+    parseArch (Bytes.ofString "any-all") = .ok ⟨sAny, sAny, sAll⟩ := by
+  decide +kernel
+
+/-- The renderings of those results, which parse back to the same triples. -/
+example :
+    (⟨sGnu, sLinux, Bytes.ofString "amd64"⟩ : Arch).render = Bytes.ofString "amd64" ∧
+    (⟨sAny, sLinux, sAny⟩ : Arch).render = Bytes.ofString "linux-any" ∧
+    (⟨sGnu, sLinux, []⟩ : Arch).render = Bytes.ofString "gnu-linux-" ∧
+    (⟨sAny, sAny, sAny⟩ : Arch).render = Bytes.ofString "any" ∧
+    (⟨sAny, sAny, sAll⟩ : Arch).render = Bytes.ofString "any-all" ∧
+    (⟨Bytes.ofString "a", Bytes.ofString "b", Bytes.ofString "c-d"⟩ : Arch).render =
+      Bytes.ofString "a-b-c-d" := by
+  decide +kernel
+
 end GoDebian.Props.C05
